@@ -94,6 +94,13 @@ def step (n : Naming) (ws : List String) : Naming × String :=
   -- (`DeleteBatch`), the clients of a node that went away (`RemoveClientsFromCluster`)
   | "updbatch" :: rest =>
     ((splitGroups rest).foldl (fun acc g => acc.updateInstance (parseSKey (kv g "svc")) (instOf g) none true now 0) n, "ok")
+  -- a peer's digest of its gRPC connections (`SyncDistroClientInstances` -> `DiffGrpcDistroData`): groups `cid=.. svc=.. ip=.. port=..`
+  | "digest" :: rest =>
+    let items := (splitGroups rest).map fun g => ((kv g "cid"), (⟨parseSKey (kv g "svc"), (instOf g).short⟩ : IKey))
+    let cids := (items.map (·.1)).eraseDups
+    let data := cids.map fun c => (c, ((items.filter (·.1 == c)).map (·.2)).eraseDups)   -- a `HashSet`: no duplicates
+    let (n', asked) := n.diffClientData data now
+    (n', s!"asked {joinOrDash (sorted (asked.map fun k => s!"{skeyStr k.skey}@{k.short.ip}:{k.short.port}"))}")
   | "delbatch" :: rest =>
     ((splitGroups rest).foldl (fun acc g =>
       (acc.removeInstance (parseSKey (kv g "svc")) (instOf g).short (some (instOf g).clientId) now).1) n, "ok")
@@ -296,6 +303,7 @@ def specOp (s0 : SpecSt) (op ans : List String) : SpecSt × String :=
   | "ipage" :: rest => (s, pageVerdict rest ans ((AL.get? s.protect (kv rest "svc")).getD 0))
   | "selectone" :: _ => (s, selectVerdict ans)
   | "updbatch" :: _ => ({ s with ruled := false }, "-")
+  | "digest" :: _ => ({ s with ruled := false }, "-")
   | "delbatch" :: _ => ({ s with ruled := false }, "-")
   | "rmclients" :: _ => ({ s with ruled := false }, "-")
   | "rmclient" :: c :: _ => ({ s with ruled := false }, rmclientVerdict c line)
